@@ -79,3 +79,37 @@ Definition src_header (hbuf T : nat) (cm hm : N) (key seed : list N) : sres (lis
               | Some f => SOk (map Z.to_N (cf_data f))
               | None => SErr "no stream"
               end)).
+
+(* ---------------- AesFactory::createCryMaster: the factory switch and the constructor chain ----------------
+   AesFactory f(key); f.loadiv(iv); Aesmode *m = f.createCryMaster(isenc, type); then m->runcry(block) for each block.
+   The factory object lives at "af." (pointer members af.key, af.iv); the created stream object at the root prefix ""
+   (alloc plan), its class is recorded by SNewObj and used for the virtual runcry calls. *)
+Definition mode_prog : program := Src_aes.functions ++ Src_aesmode.functions.
+Definition mode_alloc_plan : list (string * value) :=
+  map (fun c => (("alloc:" ++ c)%string, VPtr "" 0))
+      ["AesECB_Enc"; "AesECB_Dec"; "AesCBC_Enc"; "AesCBC_Dec"; "AesCTR"; "AesCFB_Enc"; "AesCFB_Dec"; "AesOFB"].
+Fixpoint run_blocks_virt (blks : list (list N)) (s : state) (acc : list (list N)) : sres (list (list N)) :=
+  match blks with
+  | [] => SOk (rev acc)
+  | b :: r =>
+      let s1 := with_mem s (mset (mem s) "blk" (bytes_object b)) in
+      match lget (ptrs s1) (class_key "") with
+      | Some (VPtr cls _) =>
+          of_res (call mode_prog [] 300 (cls ++ "::runcry/1") "" [VPtr "blk" 0] s1)
+            (fun r1 => match get_bytes (snd r1) "blk" with
+                       | Some ob => run_blocks_virt r (snd r1) (ob :: acc)
+                       | None => SErr "no block"
+                       end)
+      | _ => SErr "no dynamic class"
+      end
+  end.
+Definition src_mode_factory (isenc : bool) (type : N) (key iv : list N) (blks : list (list N)) : sres (list (list N)) :=
+  let m := Src_aes.globals ++ [("k", bytes_object key); ("iv0", bytes_object iv); ("blk", mk_object U8 16)] in
+  let st := {| mem := m; loc := []; pre := ""; files := [];
+               ptrs := mode_alloc_plan ++ [("af.key", VPtr "k" 0); ("af.iv", VPtr "iv0" 0)]; fresh := 0 |} in
+  of_res (call mode_prog [] 300 "AesFactory::createCryMaster/2" "af." [VInt (if isenc then 1 else 0); VInt (Z.of_N type)] st)
+    (fun r => match fst r with
+              | Some VNull => SErr "NULL"
+              | Some (VPtr _ _) => run_blocks_virt blks (snd r) []
+              | _ => SErr "no result"
+              end).
